@@ -100,7 +100,7 @@ def light(name, d, n_classes):
       'RCA': [{}, {'n_components': kd}],
       'RCA_Supervised': [{}, {'n_components': 1}],
       'ITML': [{}, {'prior': 'covariance', 'gamma': 10.0},
-               {'prior': 'random'}],
+               {'prior': 'random'}, {'gamma': 'inf'}],
       'ITML_Supervised': [{}, {'prior': '@spd'}],
       'MMC': [{}, {'init': 'covariance'}, {'diagonal': True}],
       'MMC_Supervised': [{}, {'init': 'random'}],
